@@ -16,6 +16,7 @@ package c17
 import (
 	"fmt"
 	"os"
+	"sort"
 	"strings"
 	"testing"
 
@@ -212,34 +213,11 @@ func TestCheck(t *testing.T) {
 	rep.Write(t)
 }
 
-// interleave reorders scenarios so that consecutive entries come from
-// different families (round-robin dealing to shards then balances them).
+// interleave reorders scenarios by a hash of their names: a fixed
+// pseudo-random order, so that round-robin dealing gives every shard a
+// similar mix of cheap and expensive scenarios of every family.
 func interleave(in []report.Scenario) []report.Scenario {
-	fam := func(n string) string {
-		for i := 0; i < len(n); i++ {
-			if n[i] == '/' {
-				return n[:i]
-			}
-		}
-		return n
-	}
-	var order []string
-	by := map[string][]report.Scenario{}
-	for _, s := range in {
-		f := fam(s.Name)
-		if _, ok := by[f]; !ok {
-			order = append(order, f)
-		}
-		by[f] = append(by[f], s)
-	}
-	var out []report.Scenario
-	for len(out) < len(in) {
-		for _, f := range order {
-			if len(by[f]) > 0 {
-				out = append(out, by[f][0])
-				by[f] = by[f][1:]
-			}
-		}
-	}
+	out := append([]report.Scenario{}, in...)
+	sort.SliceStable(out, func(i, j int) bool { return report.Hash(out[i].Name) < report.Hash(out[j].Name) })
 	return out
 }
